@@ -513,9 +513,9 @@ def _get_spendable_utxos(transaction: sqlite3.Connection, accounts: List, decode
         INNER JOIN account_address USING (address)
         LEFT JOIN txi USING (txoid)
         INNER JOIN tx USING (txid)
-        WHERE txo.txo_type=0 AND txi.txoid IS NULL AND tx.txid IS NOT NULL AND NOT txo.is_reserved
+        WHERE txo.txo_type IN (%d, %d) AND txi.txoid IS NULL AND tx.txid IS NOT NULL AND NOT txo.is_reserved
         AND txo.amount >= ? AND txo.amount < ?
-    """
+    """ % (TXO_TYPES['other'], TXO_TYPES['purchase'])  # the same outputs as Ledger.constraint_spending_utxos
     if accounts:
         txo_query += f"""
             AND account_address.account {'= ?' if len(accounts_fmt) == 1 else 'IN (' + accounts_fmt + ')'}
